@@ -124,7 +124,7 @@ func (p *LocalParty) Update(msg tss.ParsedMessage) (ok bool, err *tss.Error) {
 func (p *LocalParty) UpdateFromBytes(wireBytes []byte, from *tss.PartyID, isBroadcast bool) (bool, *tss.Error) {
 	msg, err := tss.ParseWireMessage(wireBytes, from, isBroadcast)
 	if err != nil {
-		return false, p.WrapError(err)
+		return false, tss.BaseWrapError(p, err)
 	}
 	return p.Update(msg)
 }
